@@ -619,6 +619,63 @@ def r01_8(chk, P):
     return n
 
 
+
+def r01_9(chk, P):
+    chk.rule('R01.9', 'the "has residue" flags are propagated over the coupling steps in order and on the vector being updated '
+             '(04-codec 4.3.4: "if either [no_residue] entry for the magnitude or the angle channel of step i is false, both '
+             'are set to false" -- a flag set by one step is seen by the next): in every function registered as '
+             'vorbis_func_mapping.inverse, each store of a constant into a flag vector at coupling_mag[i] / coupling_ang[i] is '
+             'controlled by a condition that reads that same vector at coupling_mag[i] and coupling_ang[i], and no other vector.  '
+             'A condition on the original floor results instead of the running flags differs only for chained coupling steps '
+             '((0,1),(1,2)) with residue 0/1, which the encoder never emits')
+    invs = sorted(P.slots.get(('vorbis_func_mapping', 'inverse'), ()))
+    chk.require(invs, 'vorbis_func_mapping.inverse has no registered function')
+    n = 0
+    for inv in invs:
+        F = P.need(inv)
+        defs = common.single_defs(F)
+
+        def coupling_sub(e):
+            """X[...coupling_mag/ang...] -> (text of X, 'coupling_mag'|'coupling_ang') or None"""
+            nd = F.ex[F.strip_casts(e)]
+            if nd['k'] != 'sub':
+                return None
+            todo = [nd['c'][1]]
+            hops = 0
+            while todo and hops < 6:
+                hops += 1
+                for q in F.walk(todo.pop()):
+                    qn = F.ex[q]
+                    if qn['k'] == 'member' and qn['field'] in ('coupling_mag', 'coupling_ang'):
+                        return (F.s(F.strip_casts(nd['c'][0])), qn['field'])
+                    if qn['k'] == 'ref' and qn['decl'].get('kind') == 'var' and qn['decl'].get('id') in defs:
+                        todo.append(defs[qn['decl']['id']])      # `int mag=info->coupling_mag[i];`
+            return None
+        k = 0
+        for e in sorted(F.nodes('assign'), key=lambda x: F.loc(x)):
+            nd = F.ex[e]
+            if nd['op'] != '=' or common.const_val(F, nd['c'][1]) is None:
+                continue
+            tgt = coupling_sub(nd['c'][0])
+            if tgt is None or F.ex[F.strip_casts(nd['c'][0])].get('t') not in ('int', 'long', 'char', 'unsigned char', 'short'):
+                continue
+            reads = set()
+            for cnd, pol in common.enclosing_ifs(F, e):
+                for q in F.walk(cnd):
+                    r = coupling_sub(q)
+                    if r is not None:
+                        reads.add(r)
+            same = {f for (b, f) in reads if b == tgt[0]}
+            other = sorted({b for (b, f) in reads if b != tgt[0]})
+            ok = same == {'coupling_mag', 'coupling_ang'} and not other
+            n += 1
+            chk.ob('R01.9', inv, f'flag-propagation-reads-the-vector-it-updates:{tgt[1]}#{k}', ok, F.where(e),
+                   f'`{F.s(e)}` is controlled by reads of {sorted(reads)}' +
+                   ('' if ok else f': the step does not test the running flags of `{tgt[0]}` at both channels of the step'
+                    + (f' (it reads {other} instead, which an earlier step cannot have updated)' if other else '')))
+            k += 1
+    return n
+
 def run(chk, P):
     chk.rule('R01.1', 'for every specification section with a bit layout the sequence of field widths in the TeX source '
              '(document order, consecutive duplicates collapsed, computed widths as V) is a linearisation of the reader '
@@ -639,6 +696,8 @@ def run(chk, P):
     chk.floor('R01.7', 1)
     r01_8(chk, P)
     chk.floor('R01.8', 2)
+    r01_9(chk, P)
+    chk.floor('R01.9', 2)
     chk.notes.append(f'R01.2 compared {ncon} table constants')
     chk.trusted += ['clang 14 front end and constant evaluator', 'the specification sources doc/*.tex of the repository are the oracle',
                     'width extraction from the TeX text (engine/spec.py) recognises the phrasings used in the pinned documents; '
